@@ -69,6 +69,8 @@ func runC01(c *Ctx) {
 	c01RepeatedWrite(c)
 	c.Rule("C01.O12", "E5", "the write path keeps no state on the poller: functions reachable from Write/Writev/Sendfile run in user goroutines under the connection's mutex only, so a store to a field of nbio.poller (a scratch vector, a shared buffer) there is shared by every connection of that poller without any lock", 1)
 	c01NoPollerState(c)
+	c.Rule("C01.O13", "E5", "a queued file range is told from a queued buffer by its missing buffer, never by comparing the duplicated descriptor with 0: Dup returns 0 when descriptor 0 is free (a daemon with stdin closed), and such an entry would be written as a buffer it does not have and never closed", 1)
+	c01FileEntryTest(c)
 	c.Rule("C01.O9", "E3", "a failed syscall.Dup before queuing a file range never reaches a success return", 2)
 
 	core := c.Core()
@@ -1449,4 +1451,30 @@ func c01NoPollerState(c *Ctx) {
 		}
 	}
 	c.Cond(bad == "", "C01.O12", "write path: no store to poller fields", "", fmt.Sprintf("%d write-path function(s) examined", n), bad)
+}
+
+// c01FileEntryTest: O13.
+func c01FileEntryTest(c *Ctx) {
+	n := 0
+	bad := ""
+	for _, f := range c.nbioFuncs() {
+		for _, b := range f.Blocks {
+			for _, in := range b.Instrs {
+				bo, ok := in.(*ssa.BinOp)
+				if !ok {
+					continue
+				}
+				for _, pair := range [][2]ssa.Value{{bo.X, bo.Y}, {bo.Y, bo.X}} {
+					if c.P.LoadedField(ir.Resolve(pair[0])) != "nbio.toWrite.fd" {
+						continue
+					}
+					n++
+					if k, isK := ir.ConstInt(pair[1]); isK && k == 0 {
+						bad = c.P.FuncName(f) + " compares a queue entry's descriptor with 0 at " + c.Pos(in) + " to tell file ranges from buffers: a range whose duplicated descriptor is 0 (stdin closed) is handled as a buffer entry without a buffer (nil dereference in the poller) and its descriptor is never closed"
+					}
+				}
+			}
+		}
+	}
+	c.Cond(bad == "", "C01.O13", "queue entries: file ranges recognised by the missing buffer", "", fmt.Sprintf("%d comparison(s) of toWrite.fd, none with 0", n), bad)
 }
